@@ -176,4 +176,72 @@ theorem applyNs_nsStack (cfg : TbCfg) (s : State) (t : Tag) :
     names (applyNs cfg s t).1 = names s := by
   simp [names]
 
+/-! ### the qualified-name state machine (`qname.rs`) -/
+
+theorem afterColon_noColon (v : Nat) (l : List Char) (h : ':' ∉ l) : afterColon v l = some v := by
+  induction l with
+  | nil => rfl
+  | cons c rest ih =>
+    have hc : c ≠ ':' := by intro e; subst e; simp at h
+    have hr : ':' ∉ rest := by intro e; exact h (by simp [e])
+    simp [afterColon, hc, ih hr]
+
+theorem afterColon_some (v j : Nat) (l : List Char) (h : afterColon v l = some j) : ':' ∉ l ∧ j = v := by
+  induction l with
+  | nil => simp [afterColon] at h; exact ⟨by simp, h.symm⟩
+  | cons c rest ih =>
+    simp only [afterColon] at h
+    split at h
+    · simp at h
+    · rename_i hc
+      obtain ⟨h1, h2⟩ := ih h
+      exact ⟨by simp [h1, Ne.symm hc], h2⟩
+
+theorem inName_app (i : Nat) (pre post : List Char) (hpre : ':' ∉ pre) (hpost : post ≠ []) :
+    inName i (pre ++ ':' :: post) = afterColon (i + pre.length) post := by
+  induction pre generalizing i with
+  | nil => simp [inName, hpost]
+  | cons c rest ih =>
+    have hc : c ≠ ':' := by intro e; subst e; simp at hpre
+    have hr : ':' ∉ rest := by intro e; exact hpre (by simp [e])
+    simp only [List.cons_append, inName, hc, false_and, ↓reduceIte]
+    rw [ih (i + 1) hr]
+    simp only [List.length_cons]
+    congr 1; omega
+
+theorem inName_some (i j : Nat) (l : List Char) (h : inName i l = some j) :
+    ∃ pre post, l = pre ++ ':' :: post ∧ ':' ∉ pre ∧ post ≠ [] ∧ ':' ∉ post ∧ j = i + pre.length := by
+  induction l generalizing i with
+  | nil => simp [inName] at h
+  | cons c rest ih =>
+    simp only [inName] at h
+    split at h
+    · rename_i hc
+      obtain ⟨rfl, hne⟩ := hc
+      obtain ⟨h1, h2⟩ := afterColon_some _ _ _ h
+      exact ⟨[], rest, rfl, by simp, hne, h1, by simp [h2]⟩
+    · rename_i hc
+      obtain ⟨pre, post, rfl, h1, h2, h3, h4⟩ := ih (i + 1) h
+      have hcc : c ≠ ':' := by
+        intro e; subst e
+        apply hc
+        refine ⟨rfl, ?_⟩
+        simp
+      exact ⟨c :: pre, post, rfl, by simp [h1, Ne.symm hcc], h2, h3, by simp [h4]; omega⟩
+
+theorem take_app (pre post : List Char) : (pre ++ post).take pre.length = pre := by
+  induction pre <;> simp [*]
+theorem drop_app (pre : List Char) (x : Char) (post : List Char) :
+    (pre ++ x :: post).drop (pre.length + 1) = post := by
+  induction pre <;> simp [*]
+
+theorem utf8Len_ge (s : Str) : s.length ≤ utf8Len s := by
+  induction s with
+  | nil => simp [utf8Len]
+  | cons c rest ih =>
+    have : 1 ≤ c.utf8Size := Char.utf8Size_pos c
+    simp only [utf8Len, List.map_cons, List.sum_cons, List.length_cons] at ih ⊢
+    omega
+
+
 end H5V.Lemmas.XmlTB
